@@ -152,6 +152,10 @@ def Res.val : Res → Nat
   | .ok v => v
   | _ => 0
 
+def Res.ofOpt : Option Nat → Res
+  | some v => .ok v
+  | none => .err
+
 structure Ev where
   op : Op
   res : Res
@@ -172,9 +176,7 @@ def sys (F : Nat → Bool) (w : World) (op : Op) : World × Res :=
     ({ fs := fs', log := w.log ++ [⟨op, .inj, fs'⟩] }, .inj)
   else
     let r := w.fs.step op
-    let res := match r.2 with
-      | some v => Res.ok v
-      | none => Res.err
+    let res := Res.ofOpt r.2
     ({ fs := r.1, log := w.log ++ [⟨op, res, r.1⟩] }, res)
 
 /-! ## The disk writer -/
